@@ -102,6 +102,30 @@ type WrapperCaveat interface {
 	Unwrap() *CaveatSet
 }
 
+// wrapsAttestation reports whether c is a wrapper caveat with an attestation
+// nested inside it at any depth. Attestations are only meaningful as top-level
+// caveats of proofs; GetCaveats looks inside wrappers, so a wrapped attestation
+// must never be accepted.
+func wrapsAttestation(c Caveat) bool {
+	wc, ok := c.(WrapperCaveat)
+	if !ok {
+		return false
+	}
+
+	cs := wc.Unwrap()
+	if cs == nil {
+		return false
+	}
+
+	for _, inner := range cs.Caveats {
+		if IsAttestation(inner) || wrapsAttestation(inner) {
+			return true
+		}
+	}
+
+	return false
+}
+
 var (
 	t2c = map[CaveatType]Caveat{}
 	s2t = map[string]CaveatType{}
